@@ -25,7 +25,7 @@ for b in blocks:
     checks = re.findall(r'^(C\d+) rc=(\d+) violations=(\d+)[ \t]*(.*)$', body, re.M)
     detected = [c for c, rc, v, _ in checks if rc == '1']
     detected += extra.get(f'{pid}-{k}', [])  # keyed by the delivered name
-    src = f'/tmp/mut/{pid}/MUTANT_{k}'
+    src = f'{os.environ.get("MUTROOT", "/tmp/mut")}/{pid}/MUTANT_{k}'
     # round 2 deliveries are again named MUTANT_a/b: SEEDED_RENAME=a:c,b:d keeps round 1 in place
     ren = dict(x.split(':') for x in os.environ.get('SEEDED_RENAME', '').split(',') if x)
     dst = f'/verif/seeded/{pid}-{ren.get(k, k)}'
@@ -37,7 +37,7 @@ for b in blocks:
     os.makedirs(dst)
     shutil.copy(f'{src}/patch.diff', dst)
     # the patch as delivered was written against an older HEAD: keep a version rebased onto the current one
-    wt = f'/tmp/mut/{pid}'
+    wt = f'{os.environ.get("MUTROOT", "/tmp/mut")}/{pid}'
     import subprocess
     subprocess.run(['git', '-C', wt, 'reset', '-q', '--hard'])
     if subprocess.run(['git', '-C', wt, 'apply', '--check', f'{src}/patch.diff'], capture_output=True).returncode != 0:
